@@ -324,6 +324,9 @@ def dry_runs():
     yield 'I1_copy', dict(k1=b'a\x1db\x1dc', k2=b'zz', o1=b'xy', o2=b'q', nk=1, no=1, r0=3, r1=1, r2=1, r3=0, exits=True,
                           partial=False, pend=b'', poll=True, filt=False)
     yield 'I2_restore_on_error', dict(boom=2, o1=b'x', k1=b'y')
+    # a witness for 'nothing more to copy' inside the thorough domain (four turns consuming exactly two reads each way)
+    yield 'I1_copy', dict(k1=b'ab', k2=b'c', o1=b'x', o2=b'y', nk=2, no=2, r0=1, r1=2, r2=1, r3=2, exits=False,
+                          partial=False, pend=b'', poll=False, filt=False, drop=0)
     for esc, e in enumerate((b'\x1d', b'\x1d', b'\xff', b'\x80')):
         yield 'I1b_escape_prefix', dict(k1=b'ab' + e + b'c', k2=b'q', partial=True, pend=b'', poll=False, filt=False, two=False, esc=esc)
         yield 'I1b_escape_prefix', dict(k1=b'\xc3' + e, k2=b'q', partial=False, pend=b'p', poll=True, filt=True, two=True, esc=esc)
